@@ -19,7 +19,11 @@ type c10Case struct {
 	Fill   uint64
 	IOSeed uint64
 	Plan   *irqPlan
+	NoIO   bool // no device attached (CPU.IO nil): port reads give 0, writes vanish - per CPU
 }
+
+// c10Owned collects reports of host-owned request objects found modified.
+var c10Owned sync.Map
 
 func c10Make(seed uint64, idx int) *c10Case {
 	r := mon.NewRng(mon.Hash(seed, uint64(idx), 0xC10))
@@ -54,8 +58,10 @@ func c10Make(seed uint64, idx int) *c10Case {
 				pl.Data = append(pl.Data, []uint8{uint8(r.Intn(128) * 2)})
 			}
 		}
+		pl.Reuse = idx%5 == 1
 		cs.Plan = pl
 	}
+	cs.NoIO = idx%5 == 2
 	return cs
 }
 
@@ -64,13 +70,24 @@ func (pl *irqPlan) clone() *irqPlan {
 	if pl == nil {
 		return nil
 	}
-	return &irqPlan{At: pl.At, Kind: pl.Kind, Data: pl.Data, IOAt: pl.IOAt}
+	return &irqPlan{At: pl.At, Kind: pl.Kind, Data: pl.Data, IOAt: pl.IOAt, Reuse: pl.Reuse}
 }
 
 type c10Machine struct {
-	cpu *z80.CPU
-	mem *mon.Mem
-	io  *mon.IO
+	cpu  *z80.CPU
+	mem  *mon.Mem
+	io   *mon.IO
+	plan *irqPlan
+}
+
+// owned reports (once per text) a host-owned request object that was modified.
+func (m *c10Machine) owned() {
+	if m.plan != nil {
+		m.plan.checkOwned()
+		if m.plan.Corrupt != "" {
+			c10Owned.Store(m.plan.Corrupt, true)
+		}
+	}
 }
 
 func (cs *c10Case) boot() *c10Machine {
@@ -79,7 +96,11 @@ func (cs *c10Case) boot() *c10Machine {
 	cs.P.Install(m.mem)
 	m.mem.Logging = true
 	m.cpu = &z80.CPU{States: cs.P.Init, Memory: m.mem, IO: m.io}
-	cs.Plan.clone().install(m.cpu, m.mem, m.io)
+	if cs.NoIO {
+		m.cpu.IO = nil
+	}
+	m.plan = cs.Plan.clone()
+	m.plan.install(m.cpu, m.mem, m.io)
 	return m
 }
 
@@ -137,6 +158,7 @@ func (cs *c10Case) runDigests() []uint64 {
 			break
 		}
 	}
+	m.owned()
 	return out
 }
 
@@ -170,7 +192,15 @@ func (cs *c10Case) rebuild(m *c10Machine, copyHidden bool, n *c10Machine) *c10Ma
 	} else {
 		n.cpu = &z80.CPU{States: m.cpu.States, Memory: n.mem, IO: n.io, Interrupt: copyIntr(m.cpu.Interrupt)}
 	}
-	cs.Plan.clone().install(n.cpu, n.mem, n.io)
+	if cs.NoIO {
+		n.cpu.IO = nil
+	}
+	n.plan = cs.Plan.clone()
+	if m.plan != nil && n.plan != nil {
+		// the device goes on using its own request objects
+		n.plan.reqNMI, n.plan.reqINT, n.plan.origData = m.plan.reqNMI, m.plan.reqINT, m.plan.origData
+	}
+	n.plan.install(n.cpu, n.mem, n.io)
 	return n
 }
 
@@ -528,6 +558,12 @@ func runC10(c *Ctx) {
 	}
 	c.R.Set("race_reports_in_z80", int64(nTarget))
 	c.R.Set("race_reports_total", int64(len(reports)))
+	// host-owned request objects (cases where the device re-assigns ONE object per kind)
+	c10Owned.Range(func(k, _ interface{}) bool {
+		c.R.Violation("C10/host-owned request object modified", map[string]interface{}{
+			"what": "a request object built once by the host through the public constructors and re-assigned at every firing was modified behind the host's back (state outside States and memory that outlives the acceptance): " + k.(string)})
+		return true
+	})
 	c.R.Set("evaluations", evals)
 	c.R.Set("distinct_nontrivial", distinct.N())
 	c.R.Set("programs", int64(nprog))
